@@ -219,7 +219,7 @@ pub fn gen_tx(r: &mut Rng, focus: Focus) -> tir::Tx {
         };
         inputs.push(tir::Input { name: format!("in{}", i), utxos, redeemer: if with_red { const_data(r, 2) } else { E::None } });
     }
-    // C10: one template in twelve binds a second block to the UTxO of the first (recorded finding F10-3)
+    // C10: one template in twelve binds a second block to the UTxO of the first (recorded finding F10-5)
     if focus == Focus::C10 && r.chance(1, 12) {
         if let E::UtxoRefs(v) = &inputs[0].utxos {
             let copy = v.clone();
@@ -627,6 +627,6 @@ pub fn run(ctx: &mut Ctx, focus: Focus) {
     ctx.meta.insert("samples".into(), serde_json::json!(samples));
     ctx.meta.insert(
         "rule".into(),
-        serde_json::json!("closed IR transactions (1-4 inputs as reference lists or UTxO sets with optional redeemers and permuted txids, 1-3 outputs with lovelace/native amounts, optional datum, 0-3 mints/burns over 3 policies, withdrawal / plutus_witness / native_witness / cardano_publish / treasury_donation directives, validity, metadata, references, collateral, signers); C02: amounts, fee, slots, keys are closed integer expressions over boundary values (0, +-1, 23/24, 2^8, 2^16, 2^31, 2^32, 2^63, 2^64, i128 extremes) and are reduced first; C08: up to 4 script inputs, equal and distinct policies, up to 2 withdrawals; C10: optional outputs, cancelling mint/burn, missing cost models, compile twice; C02: the same asset minted by two blocks near the i64 ends, the same token three times in one output near 2^63, two withdrawals from one account, two treasury donations; C02, C14: a quarter of the output amounts are sums / differences / negations of asset lists with entries at the ends of the i128 range and repeated classes; C14: wrong-length hashes and txids, string references, malformed scripts and addresses, missing cost models, asset amounts that are not numbers, IntoScript coercions; plus 600 (thorough 6000) generated templates with parameters, queries and compiler ops run through apply / compiler ops / reduce in two stage orders with integer arguments from the boundary list, and 300 (thorough 3000) runs of resolve_tx on the resolver's templates with boundary quantities, boundary UTxO amounts and protocol parameters near 2^64 (panics reported directly, id 147)"),
+        serde_json::json!("closed IR transactions (1-4 inputs as reference lists or UTxO sets with optional redeemers and permuted txids, 1-3 outputs with lovelace/native amounts, optional datum, 0-3 mints/burns over 3 policies, withdrawal / plutus_witness / native_witness / cardano_publish / treasury_donation directives, validity, metadata, references, collateral, signers); C02: amounts, fee, slots, keys are closed integer expressions over boundary values (0, +-1, 23/24, 2^8, 2^16, 2^31, 2^32, 2^63, 2^64, i128 extremes) and are reduced first; C08: up to 4 script inputs, equal and distinct policies, up to 2 withdrawals; C10: optional outputs, cancelling mint/burn, missing cost models, compile twice; C02: the same asset minted by two blocks near the i64 ends, the same token three times in one output near 2^63, two withdrawals from one account, two treasury donations; C02, C14: a quarter of the output amounts are sums / differences / negations of asset lists with entries at the ends of the i128 range and repeated classes; C14: wrong-length hashes and txids, string references, malformed scripts and addresses, missing cost models, asset amounts that are not numbers, IntoScript coercions; plus 600 (thorough 6000) generated templates with parameters, queries and compiler ops run through apply / compiler ops / reduce in two stage orders with integer arguments from the boundary list, and 300 (thorough 3000) runs of resolve_tx on the resolver's templates and on five selection shapes (input*, two input* blocks on one wallet, a block without threshold, a threshold read from another input's datum, a collateral block) with boundary quantities, stores from empty to three UTxOs, UTxO amounts at the ends of 64 bits and of the i128 range, and protocol parameters near 2^64; the 16 field subsets of a vote_delegation_certificate directive are compiled (panics reported directly, id 147); C10: one template in three is compiled with longer (170/185/297) or shorter (10) cost models of position-dependent values, set fields repeat members (a reference in two blocks, two collateral blocks on one UTxO, a signer twice), one template in twelve binds a second input block to the UTxO of the first (class 321)"),
     );
 }
